@@ -501,7 +501,7 @@ def contract_model_refined(rnd, desc, rdesc, atm, nvar, preserve):
 
 def gen_tasks(rnd):
     tasks = []
-    npairs = {'quick': 120, 'thorough': 2000}.get(tier, 120)
+    npairs = {'quick': 100, 'thorough': 2000}.get(tier, 120)
     nmodels = {'quick': 150, 'thorough': 3000}.get(tier, 150)
     combos = [(a, b) for a in (0, 1, 2) for b in (0, 1, 2)]
     for i in range(npairs):
@@ -549,9 +549,10 @@ def gen_tasks(rnd):
             shipped.append((fd(f, [['refine_layers', [2, 3, 5], 2]]), fd(f), 'refine-layers'))
             shipped.append((fd(f), fd(f, [['lower', list(range(0, 100, 3)), [50. + 13. * k for k in range(34)]]]), 'surfaced'))
     for k, (s, t, kind) in enumerate(shipped):
-        big = s['file'] in ('g2.dat', 'g4.dat') or t['file'] in ('g2.dat', 'g4.dat')
-        cs = combos if (tier == 'thorough' or (not big and kind != 'self')) else [(None, None), (0, 1), (1, 0), (2, 0)]
-        if tier == 'quick' and big: cs = [(None, None), (1, 0)]
+        small = s['file'] == 'g7.dat' and t['file'] == 'g7.dat'
+        if tier == 'thorough' or small: cs = combos
+        elif kind == 'self': cs = [(None, None)]
+        else: cs = [(None, None), (k % 3, (k + 1) % 3)]
         for (a, b) in cs:
             tasks.append(dict(task='pair', kind='shipped-' + kind, src=s, tgt=t, satm=a, tatm=b, nvar=1 + k % 4, pair=1000 + k))
     for i in range(nmodels):
